@@ -685,6 +685,7 @@ func spawn(dir string) (*child, error) {
 		return nil, err
 	}
 	cmd := exec.Command(os.Args[0], "-test.run=^TestCx16EventsChild$", "-test.timeout=0")
+	hx.DieWithParent(cmd)
 	cmd.Env = append(os.Environ(), "VERIF_CX16EV_CHILD="+dir, "VERIF_OUT=", "GOMAXPROCS=2")
 	cmd.ExtraFiles = []*os.File{w}
 	// what the child prints (a panic, a dump of the Go runtime) is kept for the diagnosis of an
